@@ -27,6 +27,7 @@ import (
 	"google.golang.org/protobuf/proto"
 
 	"verifharness/canon"
+	"verifharness/gen"
 )
 
 type nopCloser struct{ io.Writer }
@@ -79,7 +80,12 @@ func main() {
 	seed := flag.Int64("seed", 1, "")
 	workers := flag.Int("workers", 16, "")
 	iters := flag.Int("iters", 200, "")
+	mode := flag.String("mode", "entrypoints", "entrypoints | shared (read-only operations on one shared document)")
 	flag.Parse()
+	if *mode == "shared" {
+		sharedStress(*seed, *workers, *iters)
+		return
+	}
 
 	fmts := []formats.Format{formats.SPDX23JSON, formats.CDX14JSON, formats.CDX15JSON}
 	const nDocs = 6
@@ -212,6 +218,131 @@ func main() {
 	}
 	wg.Wait()
 	_ = proto.Equal
+	out, _ := json.Marshal(map[string]any{"problems": problems, "calls": calls})
+	fmt.Println(string(out))
+}
+
+
+// sharedStress: many goroutines run the read-only and value-returning operations on ONE shared
+// pair of node lists / document; results are compared with the sequential ones where they are
+// deterministic. Any write to the shared operands is a race the detector reports.
+func sharedStress(seed int64, workers, iters int) {
+	g := gen.New(seed)
+	sh := gen.Shape{MaxNodes: 6, MaxEdges: 8, WellFormed: true, Richness: 0.7}
+	a := g.NodeList(sh)
+	b := g.NodeList(sh)
+	for _, n := range a.Nodes {
+		if g.Chance(0.6) {
+			c := n.Copy()
+			c.Name += "'"
+			b.Nodes = append(b.Nodes, c)
+		}
+	}
+	// spare capacity, as earlier appends leave behind
+	a.RootElements = append(make([]string, 0, len(a.RootElements)+4), a.RootElements...)
+	for _, e := range a.Edges {
+		e.To = append(make([]string, 0, len(e.To)+4), e.To...)
+	}
+	doc := g.CDXTreeDocument(6)
+	id := ""
+	if len(a.Nodes) > 0 {
+		id = a.Nodes[0].Id
+	}
+	refEqual := a.Equal(b)
+	refUnion := len(a.Union(b).Nodes)
+	refInter := len(a.Intersect(b).Nodes)
+	var refOut [3]string
+	fmts := []formats.Format{formats.SPDX23JSON, formats.CDX14JSON, formats.CDX15JSON}
+	for k, f := range fmts {
+		var buf bytes.Buffer
+		_ = writer.New(writer.WithFormat(f)).WriteStream(doc, nopCloser{&buf})
+		refOut[k] = normalize(buf.Bytes())
+	}
+	var wg sync.WaitGroup
+	for w := 0; w < workers; w++ {
+		wg.Add(1)
+		go func(w int) {
+			defer wg.Done()
+			defer func() {
+				if r := recover(); r != nil {
+					report("panic in a concurrent read-only call", fmt.Sprint(r))
+				}
+			}()
+			rng := rand.New(rand.NewSource(seed*7919 + int64(w)))
+			for it := 0; it < iters; it++ {
+				switch rng.Intn(12) {
+				case 0:
+					if a.Equal(b) != refEqual {
+						report("concurrent NodeList.Equal differs from the sequential result", "")
+					}
+					count("Equal")
+				case 1:
+					if len(a.Union(b).Nodes) != refUnion {
+						report("concurrent Union differs from the sequential result", "")
+					}
+					count("Union")
+				case 2:
+					if len(a.Intersect(b).Nodes) != refInter {
+						report("concurrent Intersect differs from the sequential result", "")
+					}
+					count("Intersect")
+				case 3:
+					c := a.Copy()
+					if len(c.RootElements) > 0 {
+						c.RootElements[0] = "scribble" // a private result may be written freely
+					}
+					for _, e := range c.Edges {
+						e.To = append(e.To, "scribble")
+					}
+					count("Copy+write")
+				case 4:
+					for _, n := range a.Nodes {
+						_ = n.Checksum()
+						cp := n.Copy()
+						cp.PrimaryPurpose = append(cp.PrimaryPurpose, 1)
+						for k := range cp.PrimaryPurpose {
+							cp.PrimaryPurpose[k] = 2
+						}
+					}
+					count("Checksum+Node.Copy+write")
+				case 5:
+					if len(a.Nodes) > 1 {
+						_ = a.Nodes[0].Diff(a.Nodes[1])
+						_ = a.Nodes[0].Equal(a.Nodes[1])
+					}
+					count("Diff")
+				case 6:
+					_ = a.GetNodeByID(id)
+					_ = a.GetNodesByName("x")
+					_ = a.GetRootNodes()
+					count("lookups")
+				case 7:
+					_ = a.NodeGraph(id)
+					_ = a.NodeDescendants(id, 2)
+					_ = a.NodeSiblings(id)
+					count("traversals")
+				case 8, 9, 10:
+					k := rng.Intn(3)
+					var buf bytes.Buffer
+					if err := writer.New(writer.WithFormat(fmts[k])).WriteStream(doc, nopCloser{&buf}); err == nil && normalize(buf.Bytes()) != refOut[k] {
+						report("concurrent serialization of a shared document differs from the sequential output", string(fmts[k]))
+					}
+					count("serialize")
+				case 11:
+					r := a.Union(b)
+					for _, n := range r.Nodes {
+						n.Name = "scribble"
+						for k := range n.Hashes {
+							n.Hashes[k] = "scribble"
+						}
+					}
+					r.RootElements = append(r.RootElements, "scribble")
+					count("Union+write")
+				}
+			}
+		}(w)
+	}
+	wg.Wait()
 	out, _ := json.Marshal(map[string]any{"problems": problems, "calls": calls})
 	fmt.Println(string(out))
 }
